@@ -277,6 +277,32 @@ func init() {
 					})
 					return w, st.invariant, st.final
 				}},
+			{Name: "g: nobody closes: writer x 4 batches and a synchronous NotifyMerger under MaxDirtyOps=1 with CachePersisted (map lower level) - every call returns",
+				Build: func() (*World, func() *Violation, func(string) []Violation) {
+					w, st := c16World(Config{Backing: "map", MinMergePct: 100, MaxPre: 2, MaxDirtyOps: 1, CachePersisted: true})
+					if w.infra != "" {
+						return w, nil, st.final
+					}
+					st.spawn("writer", func() {
+						for j := 1; j <= 4; j++ {
+							st.call(fmt.Sprintf("ExecuteBatch#w.%d", j), func() (string, error) { return setBatch(w.coll, "k", fmt.Sprint(j)) })
+						}
+					})
+					st.spawn("notifier", func() {
+						st.call("NotifyMerger#sync", func() (string, error) {
+							return "", w.coll.(interface{ NotifyMerger(string, bool) error }).NotifyMerger("mergeAll", true)
+						})
+					})
+					return w, st.invariant, func(deadlock string) []Violation {
+						// merger and persister legitimately stay parked when nobody closes the collection
+						for _, c := range st.calls {
+							if c.returned == 0 {
+								return st.final(deadlock)
+							}
+						}
+						return st.final("")
+					}
+				}},
 			{Name: "d: after Close has returned: NewBatch, Snapshot, Get, ExecuteBatch(non-empty), ExecuteBatch(empty), NotifyMerger(sync)",
 				Build: func() (*World, func() *Violation, func(string) []Violation) {
 					w, st := c16World(Config{Backing: "store", MinMergePct: 100, MaxPre: 1})
